@@ -253,7 +253,7 @@ def builtin_reference(case, fn, its=None):
 class MapPart(E2Prop):
     id = "C03"
     name = "map"
-    lean_modules = ["LokyModel.Props.C03Map"]
+    lean_modules = ["LokyModel.Props.C03Map", "LokyModel.Props.C03MapMore"]
     driver = "chunks_driver"
     n_cases = {"quick": 20000, "thorough": 1000000}
     search_cases = {"quick": 20000, "thorough": 200000}
